@@ -12,7 +12,7 @@ open DSymVerif.DS
 theorem loopPairs_add (a b dim : Nat) :
     ∃ l, loopPairs (a + b) dim = loopPairs a dim ++ l := by
   unfold loopPairs
-  have := List.range_add a b
+  have := @List.range_add a b
   rw [this, List.flatMap_append]
   exact ⟨_, rfl⟩
 
@@ -52,7 +52,6 @@ theorem cmpLoop_mono {ds T : DSetData} (hv : ValidPartialSet ds) (hT : ValidSet 
     simp only [List.cons_append, cmpLoop] at h ⊢
     split at h
     · rename_i od hod
-      simp only
       split at h
       · rename_i ei hei
         obtain ⟨o1, o2, rfl⟩ := opC_range hv hi hei
@@ -68,10 +67,8 @@ theorem cmpLoop_mono {ds T : DSetData} (hv : ValidPartialSet ds) (hT : ValidSet 
           rw [if_neg hne]
           split at h
           · rename_i x hx
-            simp only at h ⊢
             split at h
             · rename_i r' hr'
-              simp only
               split at h
               · rename_i di hdi
                 obtain ⟨_, _, rfl⟩ := opC_range hv hi hdi
@@ -87,7 +84,6 @@ theorem cmpLoop_mono {ds T : DSetData} (hv : ValidPartialSet ds) (hT : ValidSet 
                   rw [if_neg hne2]
                   split at h
                   · rename_i y hy
-                    simp only
                     split at h
                     · rename_i hyne
                       rw [if_pos hyne]
@@ -101,5 +97,380 @@ theorem cmpLoop_mono {ds T : DSetData} (hv : ValidPartialSet ds) (hT : ValidSet 
           · cases h
       · cases h
     · cases h
+
+theorem compare_mono {ds T : DSetData} (hv : ValidPartialSet ds) (hT : ValidSet T)
+    (hp : PartOf ds T) {d0 maxSize : Nat} {v : Int}
+    (h : compareRenumberedFrom ds d0 maxSize = .ok v) (hv0 : v ≠ 0) :
+    compareRenumberedFrom T d0 maxSize = .ok v := by
+  unfold compareRenumberedFrom at h ⊢
+  simp only at h ⊢
+  split at h
+  · split at h
+    · obtain ⟨l', hl'⟩ := loopPairs_add ds.size (T.size - ds.size) ds.dim
+      have hsz : ds.size + (T.size - ds.size) = T.size := by have := hp.size_le; omega
+      rw [hsz, ← hp.dim_eq] at hl'
+      rw [hl']
+      apply cmpLoop_mono hv hT hp _ l' _ v _ _ hv0
+      · intro p hp'
+        have := (mem_loopPairs _ _ _).1 hp'
+        rw [← hp.dim_eq]
+        omega
+      · rw [hp.dim_eq]; exact h
+    · cases h
+  · cases h
+
+/-- every start chamber compares ≥ 0: no breadth-first renumbering of `T` is smaller
+    than `T` itself (as decided by the generator's own comparison) -/
+def Canonical (T : DSetData) (maxSize : Nat) : Prop :=
+  ∀ d0, 1 ≤ d0 → d0 ≤ T.size → ∀ v, compareRenumberedFrom T d0 maxSize = .ok v → 0 ≤ v
+
+/-- chambers are numbered in the order of their first occurrence in the row-major table:
+    every number between 2 and an entry occurs at an earlier position -/
+def Orderly (T : DSetData) : Prop :=
+  ∀ i d, i ≤ T.dim → 1 ≤ d → d ≤ T.size → ∀ v, 2 ≤ v → v < T.opU i d →
+    ∃ i' d', i' ≤ T.dim ∧ 1 ≤ d' ∧ d' ≤ T.size ∧ Before (i', d') (i, d) ∧ T.opU i' d' = v
+
+theorem canonLoop_not_none {ds T : DSetData} {maxSize : Nat} (hv : ValidPartialSet ds)
+    (hT : ValidSet T) (hp : PartOf ds T) (hc : Canonical T maxSize) :
+    ∀ (l : List Nat) (irs : Array Bool) (rc : Option (Array Bool)),
+    (∀ d, d ∈ l → 1 ≤ d ∧ d ≤ ds.size) → canonLoop ds maxSize l irs = .ok rc → rc ≠ none := by
+  intro l
+  induction l with
+  | nil => intro irs rc _ h; simp only [canonLoop] at h; cases h; simp
+  | cons d l ih =>
+    intro irs rc hl h
+    obtain ⟨hd1, hd2⟩ := hl d (by simp)
+    have hl' : ∀ d, d ∈ l → 1 ≤ d ∧ d ≤ ds.size := fun x hx => hl x (by simp [hx])
+    simp only [canonLoop] at h
+    split at h
+    · exact ih _ _ hl' h
+    · split at h
+      · rename_i diff hdiff
+        split at h
+        · rename_i hneg
+          exfalso
+          have := compare_mono hv hT hp hdiff (by omega)
+          have := hc d hd1 (Nat.le_trans hd2 hp.size_le) diff this
+          omega
+        · split at h
+          · split at h
+            · exact ih _ _ hl' h
+            · cases h
+          · exact ih _ _ hl' h
+      · cases h
+    · cases h
+
+theorem grow_partOf {ds T : DSetData} (hv : ValidPartialSet ds) (hp : PartOf ds T)
+    (hsz : ds.size + 1 ≤ T.size) : PartOf (ds.grow 1) T := by
+  refine ⟨hp.dim_eq, hsz, ?_⟩
+  intro i d hi h1 h2 hne
+  have hi' : i ≤ ds.dim := hi
+  rw [grow_opU hv hi' h1] at hne ⊢
+  split at hne
+  · rename_i hle
+    rw [if_pos hle]
+    exact hp.agree i d hi' h1 hle hne
+  · exact absurd rfl hne
+
+/-- the branch `e = T.op(i, d)` at a state whose set is part of the orderly canonical `T` -/
+theorem childFor_complete {dim maxSize : Nat} {s : GenState} {T : DSetData} {i d : Nat}
+    (hs : GInv dim maxSize s) (hnext : s.next = some (i, d)) (hT : ValidSet T)
+    (hf : FarCommute T) (ho : Orderly T) (hc : Canonical T maxSize) (hTsz : T.size ≤ maxSize)
+    (hp : PartOf s.dset T) :
+    d ≤ T.opU i d ∧ T.opU i d ≤ maxSize ∧ T.opU i d ≤ s.dset.size + 1 ∧
+    (¬ s.dset.size < T.opU i d → s.dset.opU i (T.opU i d) = 0) ∧
+    ∃ c, childFor maxSize s i d (T.opU i d) = .ok (some c) ∧ PartOf c.dset T := by
+  obtain ⟨hi, hd1, hd2, hzd, hpre⟩ := hs.next_some i d hnext
+  have hidim : i ≤ s.dset.dim := by rw [hs.dim_eq]; exact hi
+  have hiT : i ≤ T.dim := by rw [hp.dim_eq]; exact hidim
+  have hd2T : d ≤ T.size := Nat.le_trans hd2 hp.size_le
+  obtain ⟨e1, e2⟩ := hT.range i d hiT hd1 hd2T
+  have hinvT := hT.invol i d hiT hd1 hd2T
+  generalize he : T.opU i d = e at *
+  -- (4) the partner entry is free
+  have hfree : e ≤ s.dset.size → s.dset.opU i e = 0 := by
+    intro hle
+    apply Classical.byContradiction
+    intro hne
+    have h1 := hp.agree i e hidim e1 hle hne
+    rw [hinvT] at h1
+    have h2 := hs.valid.invol i e hidim e1 hle hne
+    rw [← h1] at h2
+    rw [h2] at hzd
+    omega
+  -- (1) e ≥ d
+  have hge : d ≤ e := by
+    apply Classical.byContradiction
+    intro hlt
+    have hlt' : e < d := by omega
+    have := hpre i e hidim e1 (by omega) (Or.inl hlt')
+    exact this (hfree (by omega))
+  -- (3) e ≤ size + 1
+  have hsucc : e ≤ s.dset.size + 1 := by
+    apply Classical.byContradiction
+    intro hgt
+    obtain ⟨i', d', a1, a2, a3, a4, a5⟩ := ho i d hiT hd1 hd2T (s.dset.size + 1)
+      (by have := hs.size_pos; omega) (by rw [he]; omega)
+    have hd' : d' ≤ s.dset.size := by unfold Before at a4; simp only at a4; omega
+    have hi' : i' ≤ s.dset.dim := by rw [← hp.dim_eq]; exact a1
+    have hne := hpre i' d' hi' a2 hd' a4
+    have := hp.agree i' d' hi' a2 hd' hne
+    have hr := hs.valid.range i' d' hi' a2 hd'
+    omega
+  refine ⟨hge, Nat.le_trans e2 hTsz, hsucc, fun h => hfree (by omega), ?_⟩
+  have hmax : e ≤ maxSize := Nat.le_trans e2 hTsz
+  unfold childFor
+  simp only
+  split
+  case h_2 hno =>
+    exfalso
+    by_cases hlt : s.dset.size < e
+    · have hb : e < s.isRemapStart.size := by rw [hs.irs]; omega
+      exact hno (s.dset.grow 1) (s.isRemapStart.setIfInBounds e true)
+        (by rw [if_pos hlt, putC_of_lt hb])
+    · exact hno s.dset s.isRemapStart (by rw [if_neg hlt])
+  rename_i ds0 irs0 hgeq
+  have hg : (s.dset.size < e ∧ e < s.isRemapStart.size ∧ ds0 = s.dset.grow 1 ∧
+          irs0 = s.isRemapStart.setIfInBounds e true) ∨
+       (¬ s.dset.size < e ∧ ds0 = s.dset ∧ irs0 = s.isRemapStart) := by
+    split at hgeq
+    · rename_i hlt
+      split at hgeq
+      · rename_i irs' hput
+        cases hgeq
+        obtain ⟨h1, h2⟩ := putC_ok hput
+        exact Or.inl ⟨hlt, h1, rfl, h2⟩
+      · cases hgeq
+    · rename_i hlt
+      cases hgeq
+      exact Or.inr ⟨hlt, rfl, rfl⟩
+  have h0 : ValidPartialSet ds0 ∧ PartOf ds0 T := by
+    rcases hg with ⟨hlt, _, rfl, _⟩ | ⟨_, rfl, _⟩
+    · exact ⟨grow_valid hs.valid, grow_partOf hs.valid hp (by omega)⟩
+    · exact ⟨hs.valid, hp⟩
+  have hset : ∃ ds1, setC ds0 i d e = .ok ds1 := by
+    rcases hg with ⟨hlt, _, rfl, _⟩ | ⟨hlt, rfl, _⟩
+    · have hsz : (s.dset.grow 1).size = s.dset.size + 1 := rfl
+      apply setC_of_free (grow_valid hs.valid) hidim hd1 (by rw [hsz]; omega) (by omega)
+        (by rw [hsz]; omega)
+      · rw [grow_opU hs.valid hidim hd1, if_pos hd2]; exact hzd
+      · rw [grow_opU hs.valid hidim (by omega), if_neg (by omega)]
+    · exact setC_of_free hs.valid hidim hd1 hd2 (by omega) (by omega) hzd (hfree (by omega))
+  obtain ⟨ds1, hset⟩ := hset
+  obtain ⟨hi0, hd01, hd02, _, _, _, _, _, _, _⟩ := setC_ok hset
+  have hv1 := setC_valid h0.1 hset
+  have hx1 := setC_ext hset
+  have hp1 := setC_partOf hT h0.2 hset he
+  obtain ⟨ds2, himpl, hp2, hv2, hx2⟩ := checkImpl_complete hv1 hT hf hp1 (i := i) (d := d)
+    (by rw [hx1.dim_eq]; exact hi0) hd01 (by rw [hx1.size_eq]; exact hd02)
+  rw [hset]
+  simp only
+  rw [himpl]
+  simp only
+  have hdim2 : ds2.dim = s.dset.dim := by
+    rw [hx2.dim_eq, hx1.dim_eq]
+    rcases hg with ⟨_, _, rfl, _⟩ | ⟨_, rfl, _⟩ <;> rfl
+  obtain ⟨nx, hnx, _, _⟩ := nextUndefined_spec hv2 (i0 := i) (d0 := d)
+    (by rw [hdim2]; exact hidim) hd1 (by rw [hx2.size_eq, hx1.size_eq]; exact hd02)
+  have hinv : GInv dim maxSize { dset := ds2, isRemapStart := irs0, next := nx } :=
+    step_inv (c := { dset := ds2, isRemapStart := irs0, next := nx }) hs hnext hmax hg hset himpl
+      (fun h => h) hnx
+  have hsz2 : ds2.size ≤ maxSize := by
+    rcases hinv.size_le with h | ⟨h, _⟩
+    · exact h
+    · have : ds2.size = 1 := h
+      omega
+  obtain ⟨rc, hrc⟩ := checkCanonicity_total hinv.valid hinv.linked hsz2 (irs := irs0) hinv.irs
+  have hrcne := canonLoop_not_none hv2 hT hp2 hc _ irs0 rc (by
+    intro x hx
+    simp only [List.mem_map, List.mem_range] at hx
+    obtain ⟨a, ha, rfl⟩ := hx
+    omega) hrc
+  rw [hrc]
+  cases rc with
+  | none => exact absurd rfl hrcne
+  | some irs =>
+    simp only
+    rw [hnx]
+    exact ⟨_, rfl, hp2⟩
+
+/-! ### the branch is kept by the loop -/
+
+theorem childLoop_mem_conv {maxSize : Nat} {s : GenState} {i d : Nat}
+    (hv : ValidPartialSet s.dset) (hi : i ≤ s.dset.dim) :
+    ∀ (es : List Nat) (cs : List GenState), childLoop maxSize s i d es = .ok cs →
+    ∀ e c, e ∈ es → 1 ≤ e → (¬ s.dset.size < e → s.dset.opU i e = 0) →
+      childFor maxSize s i d e = .ok (some c) → c ∈ cs := by
+  intro es
+  induction es with
+  | nil => intro cs _ e c he; cases he
+  | cons e0 es ih =>
+    intro cs h e c he he1 hz hfor
+    simp only [childLoop] at h
+    rcases List.mem_cons.1 he with rfl | he'
+    · -- the head of the list is our e
+      by_cases hlt : s.dset.size < e
+      · rw [if_pos hlt, hfor] at h
+        simp only at h
+        split at h
+        · cases h; simp
+        · cases h
+      · rw [if_neg hlt, opC_valid hv hi he1 (by omega), hz hlt, hfor] at h
+        simp only [decide_true] at h
+        split at h
+        · cases h; simp
+        · cases h
+    · split at h
+      · split at h
+        · split at h
+          · rename_i cs0 hcs0
+            cases h
+            exact List.mem_cons_of_mem _ (ih _ hcs0 e c he' he1 hz hfor)
+          · cases h
+        · exact ih _ h e c he' he1 hz hfor
+        · cases h
+      · exact ih _ h e c he' he1 hz hfor
+      · cases h
+
+/-! ### a complete part of a connected set is the whole set -/
+
+theorem complete_partOf_eq {ds T : DSetData} (hv : ValidSet ds) (hT : ValidSet T)
+    (hcon : Connected T) (hp : PartOf ds T) (h1 : 1 ≤ ds.size) : ds = T := by
+  -- every chamber of T reached from 1 is a chamber of ds
+  have hreach : ∀ e, Joined T 1 e → 1 ≤ e ∧ e ≤ ds.size := by
+    intro e hj
+    induction hj with
+    | refl => exact ⟨Nat.le_refl _, h1⟩
+    | @step b i hi _ ih =>
+      obtain ⟨b1, b2⟩ := ih
+      have hi' : i ≤ ds.dim := by rw [← hp.dim_eq]; exact hi
+      obtain ⟨r1, r2⟩ := hv.range i b hi' b1 b2
+      rw [hp.agree i b hi' b1 b2 (by omega)]
+      exact ⟨r1, r2⟩
+  have hsize : ds.size = T.size := by
+    have hTpos : 1 ≤ T.size := Nat.le_trans h1 hp.size_le
+    have := (hreach T.size (hcon T.size hTpos (Nat.le_refl _))).2
+    have := hp.size_le
+    omega
+  have hdim : ds.dim = T.dim := hp.dim_eq.symm
+  have hop : ds.op = T.op := by
+    apply Array.ext
+    · rw [hv.size_eq, hT.size_eq, hsize, hdim]
+    · intro k hk1 hk2
+      -- position k is the entry (k % (dim+1), k / (dim+1) + 1)
+      have hpos : 0 < ds.dim + 1 := by omega
+      have hk : k < ds.size * (ds.dim + 1) := by rw [← hv.size_eq]; exact hk1
+      have hdlt : k / (ds.dim + 1) < ds.size := by
+        rw [Nat.div_lt_iff_lt_mul hpos]; exact hk
+      have hilt : k % (ds.dim + 1) < ds.dim + 1 := Nat.mod_lt _ hpos
+      have hidx : ds.idx (k % (ds.dim + 1)) (k / (ds.dim + 1) + 1) = k := by
+        unfold DSetData.idx
+        rw [Nat.add_sub_cancel, Nat.mul_comm]
+        exact Nat.div_add_mod k (ds.dim + 1)
+      have hidxT : T.idx (k % (ds.dim + 1)) (k / (ds.dim + 1) + 1) = k := by
+        unfold DSetData.idx
+        rw [← hdim, Nat.add_sub_cancel, Nat.mul_comm]
+        exact Nat.div_add_mod k (ds.dim + 1)
+      generalize k / (ds.dim + 1) = q at hdlt hidx hidxT
+      generalize k % (ds.dim + 1) = m at hilt hidx hidxT
+      have hm : m ≤ ds.dim := by omega
+      have hne := (hv.range m (q + 1) hm (by omega) (by omega)).1
+      have := hp.agree m (q + 1) hm (by omega) (by omega) (by omega)
+      unfold DSetData.opU at this
+      rw [hidx, hidxT] at this
+      simpa [Array.getD, hk1, hk2] using this.symm
+  cases ds
+  cases T
+  simp only at hsize hdim hop
+  subst hsize hdim hop
+  rfl
+
+/-! ### the path to `T` in the search tree -/
+
+theorem exists_leaf {dim maxSize : Nat} {T : DSetData} (hT : ValidSet T) (hf : FarCommute T)
+    (hcon : Connected T) (ho : Orderly T) (hc : Canonical T maxSize) (hTsz : T.size ≤ maxSize) :
+    ∀ (n : Nat) (s : GenState), height maxSize (.st s) ≤ n → GInv dim maxSize s →
+    PartOf s.dset T →
+    ∃ t, BT.Reach (problem dim maxSize) (.st s) (.st t) ∧ t.next = none ∧ t.dset = T := by
+  intro n
+  induction n with
+  | zero =>
+    intro s hh _ _
+    simp only [height] at hh
+    omega
+  | succ n ih =>
+    intro s hh hs hp
+    cases hnext : s.next with
+    | none =>
+      refine ⟨s, BT.Reach.refl _, hnext, ?_⟩
+      have hvs : ValidSet s.dset := by
+        refine ⟨hs.valid.size_eq, ?_, ?_⟩
+        · intro i d hi h1 h2
+          have := hs.next_none hnext i d (by rw [← hs.dim_eq]; exact hi) h1 h2
+          exact ⟨Nat.pos_of_ne_zero this, hs.valid.range i d hi h1 h2⟩
+        · intro i d hi h1 h2
+          exact hs.valid.invol i d hi h1 h2
+            (hs.next_none hnext i d (by rw [← hs.dim_eq]; exact hi) h1 h2)
+      exact complete_partOf_eq hvs hT hcon hp hs.size_pos
+    | some pr =>
+      obtain ⟨i, d⟩ := pr
+      obtain ⟨hge, hmax, hsucc, hfree, c, hfor, hpc⟩ :=
+        childFor_complete hs hnext hT hf ho hc hTsz hp
+      obtain ⟨hi, hd1, hd2, _, _⟩ := hs.next_some i d hnext
+      have hidim : i ≤ s.dset.dim := by rw [hs.dim_eq]; exact hi
+      -- c is among the children
+      have hmemc : Node.st c ∈ children maxSize (.st s) := by
+        unfold children
+        simp only [hnext]
+        have hst : storeOk s.dset = true := by
+          simp only [storeOk, beq_iff_eq]; exact hs.valid.size_eq
+        rw [hst]
+        simp only [Bool.not_true, Bool.false_eq_true, if_false]
+        have hrange : ∀ e, e ∈ List.range' d (min (s.dset.size + 1) maxSize + 1 - d) →
+            d ≤ e ∧ e ≤ maxSize ∧ e ≤ s.dset.size + 1 := by
+          intro e he
+          have hr := List.mem_range'_1.1 he
+          have hm1 : min (s.dset.size + 1) maxSize ≤ maxSize := Nat.min_le_right _ _
+          have hm2 : min (s.dset.size + 1) maxSize ≤ s.dset.size + 1 := Nat.min_le_left _ _
+          omega
+        obtain ⟨cs, hcs⟩ := childLoop_total hs hnext _ hrange
+        rw [hcs]
+        simp only
+        apply List.mem_map.2
+        refine ⟨c, ?_, rfl⟩
+        apply childLoop_mem_conv hs.valid hidim _ _ hcs (T.opU i d) c _ (by omega) hfree hfor
+        apply List.mem_range'_1.2
+        have : T.opU i d ≤ min (s.dset.size + 1) maxSize := Nat.le_min.2 ⟨hsucc, hmax⟩
+        omega
+      have hdec := children_decreasing dim maxSize (.st s) (.st c) hmemc
+      rcases children_inv hs hmemc with h | ⟨c', hcc, hinvc⟩
+      · cases h
+      · injection hcc with hcc
+        subst hcc
+        obtain ⟨t, hr, ht1, ht2⟩ := ih c (by omega) hinvc hpc
+        exact ⟨t, BT.Reach.step hmemc hr, ht1, ht2⟩
+
+/-- **Every orderly canonical D-set is emitted**: the orderly-generation pruning never cuts
+    the branch leading to a complete connected D-set `T` with commuting far operations
+    whose chambers are numbered in order of first occurrence and on which every start
+    chamber compares ≥ 0. -/
+theorem canonical_emitted {dim maxSize : Nat} {T : DSetData} (hdim : 1 ≤ dim) (hT : ValidSet T)
+    (hf : FarCommute T) (hcon : Connected T) (hTd : T.dim = dim) (hT1 : 1 ≤ T.size)
+    (hTsz : T.size ≤ maxSize) (ho : Orderly T) (hc : Canonical T maxSize) :
+    Outcome.ok T ∈ dsets dim maxSize := by
+  have hroot : root dim maxSize = .st (rootState dim maxSize) := by
+    rw [root_eq, if_neg (by omega)]
+  have hp : PartOf (rootState dim maxSize).dset T := by
+    refine ⟨hTd, hT1, ?_⟩
+    intro i d _ _ _ hne
+    exact absurd (getD_replicate_zero _ _) hne
+  obtain ⟨t, hr, ht1, ht2⟩ := exists_leaf hT hf hcon ho hc hTsz _ (rootState dim maxSize)
+    (Nat.le_refl _) (rootState_inv dim maxSize) hp
+  rw [dsets_eq_dfs, hroot]
+  apply List.mem_filterMap.2
+  refine ⟨.st t, ?_, ?_⟩
+  · exact (BT.mem_dfs_iff (problem dim maxSize) (height maxSize)
+      (children_decreasing dim maxSize) _ _).2 hr
+  · simp [extract, ht1, ht2]
 
 end DSymVerif.DSG
